@@ -645,7 +645,9 @@ class SeqX(Seq):
 PROP = Property(
     id="C17",
     title="A dataset stays structurally consistent and announces every structural change",
-    theorems=["C17.inv_init", "C17.inv_spec", "C17.find_spec", "C17.step_inv_partial", "C17.inv_reachable_partial"],
+    theorems=["C17.inv_init", "C17.inv_spec", "C17.find_spec", "C17.step_inv_partial", "C17.inv_reachable_partial",
+              "C17.messages_exact_partial", "C17.trace_ok_partial",
+              "C17.remove_coordinate_breaks", "C17.silent_replace", "C17.update_id_merges"],
     families=[Seq(), SeqX()],
     trusted_base=["CPython dict insertion order / object identity, the Hub delivering messages in broadcast order to a catch-all listener (delay_callbacks only postpones), IdentityCoordinates axis names"],
     assumptions=["the positional-argument resolution rules are the same in lean/Drivers/C17.lean and harness/props/c17.py (any difference shows as a model disagreement)"],
